@@ -341,12 +341,17 @@ struct RNode {
 
 pub struct RecTree {
     nodes: Vec<RNode>,
-    log: Vec<(usize, LayoutInput, LayoutOutput)>,
+    /// every call of compute_child_layout (answered by the cache or not) with what it returned
+    log: Vec<(u64, usize, LayoutInput, LayoutOutput)>,
+    /// only the calls that actually ran a layout algorithm (cache misses)
+    runs: Vec<(u64, usize, LayoutInput)>,
+    /// event counter stamping both lists (a run is stamped when it starts, a call when it returns)
+    seq: u64,
 }
 
 impl RecTree {
     fn new() -> Self {
-        RecTree { nodes: vec![], log: vec![] }
+        RecTree { nodes: vec![], log: vec![], runs: vec![], seq: 0 }
     }
     fn add(&mut self, spec: &NodeSpec) -> usize {
         let idx = self.nodes.len();
@@ -406,6 +411,8 @@ impl taffy::LayoutPartialTree for RecTree {
         }
         let out = compute_cached_layout(self, n, inputs, |tree, n, inputs| {
             let i = usize::from(n);
+            tree.seq += 1;
+            tree.runs.push((tree.seq, i, inputs));
             let display = tree.nodes[i].style.display;
             let has_children = !tree.nodes[i].children.is_empty();
             match (display, has_children) {
@@ -419,7 +426,8 @@ impl taffy::LayoutPartialTree for RecTree {
                 }
             }
         });
-        self.log.push((usize::from(n), inputs, out));
+        self.seq += 1;
+        self.log.push((self.seq, usize::from(n), inputs, out));
         out
     }
 }
@@ -510,6 +518,10 @@ impl MS {
             MS { pos: 0.0, neg: m }
         }
     }
+    /// both a positive and a negative adjoining margin
+    fn mixed(self) -> bool {
+        self.pos > 0.0 && self.neg < 0.0
+    }
     fn union(self, o: MS) -> MS {
         MS { pos: if o.pos > self.pos { o.pos } else { self.pos }, neg: if o.neg < self.neg { o.neg } else { self.neg } }
     }
@@ -559,9 +571,17 @@ fn tol(a: f32, b: f32) -> f32 {
 }
 
 pub struct Finding {
-    pub known: bool,
+    /// id of the known-finding class the failure falls in, if any
+    pub known: Option<&'static str>,
+    /// (clause, container, earlier/only child, later child)
+    pub key: (u8, usize, usize, usize),
     pub msg: String,
 }
+
+const CT_CLASS: &str = "ct-positive-height";
+const MIXED_CLASS: &str = "mixed-sign-top-set";
+const LOSSY_CLASS: &str = "lossy-cache-key";
+const CLOBBER_CLASS: &str = "measure-pass-overwrites-child-layouts";
 
 #[derive(Default, Debug, Clone, Copy)]
 pub struct Stats {
@@ -575,7 +595,12 @@ pub struct Stats {
 
 struct Laid {
     t: RecTree,
+    /// last PerformLayout call per node: (inputs of the call, output returned to the parent)
     last: Vec<Option<(LayoutInput, LayoutOutput)>>,
+    /// inputs of the last PerformLayout call per node that actually ran (what its children were laid out under)
+    last_run: Vec<Option<LayoutInput>>,
+    /// stamp at which that run returned
+    last_run_end: Vec<u64>,
     live: Vec<bool>,
 }
 
@@ -584,9 +609,18 @@ fn lay_out(spec: &NodeSpec, avail: Size<AvailableSpace>) -> Laid {
     let root = t.add(spec);
     compute_root_layout(&mut t, NodeId::from(root), avail);
     let mut last = vec![None; t.nodes.len()];
-    for (n, i, o) in &t.log {
+    for (_, n, i, o) in &t.log {
         if i.run_mode == RunMode::PerformLayout {
             last[*n] = Some((*i, *o));
+        }
+    }
+    let mut last_run = vec![None; t.nodes.len()];
+    let mut last_run_end = vec![0u64; t.nodes.len()];
+    for (q, n, i) in &t.runs {
+        if i.run_mode == RunMode::PerformLayout {
+            last_run[*n] = Some(*i);
+            // the run ends at the first return of this node stamped after its start
+            last_run_end[*n] = t.log.iter().find(|(q2, n2, _, _)| n2 == n && q2 > q).map(|e| e.0).unwrap_or(u64::MAX);
         }
     }
     let mut live = vec![false; t.nodes.len()];
@@ -600,7 +634,7 @@ fn lay_out(spec: &NodeSpec, avail: Size<AvailableSpace>) -> Laid {
         }
     }
     mark(&t, root, &mut live);
-    Laid { t, last, live }
+    Laid { t, last, last_run, last_run_end, live }
 }
 
 impl Laid {
@@ -621,6 +655,12 @@ impl Laid {
         let s = &self.t.nodes[n].style;
         lpa_nonneg(s.margin.top) && lpa_nonneg(s.margin.bottom) && self.t.nodes[n].children.iter().all(|c| !self.live[*c] || self.subtree_margins_nonneg(*c))
     }
+    /// the children of block container `b` were laid out again (by a size-only run of `b`) after the run that produced
+    /// `b`'s final layout returned: their stored layouts belong to a measuring pass
+    fn children_overwritten(&self, b: usize) -> bool {
+        let end = self.last_run_end[b];
+        self.t.nodes[b].children.iter().any(|c| self.t.log.iter().any(|(q, n, i, _)| n == c && *q > end && i.run_mode != RunMode::PerformHiddenLayout))
+    }
     fn subtree_has_known_class(&self, n: usize) -> bool {
         self.in_known_class(n) || self.t.nodes[n].children.iter().any(|c| self.live[*c] && self.subtree_has_known_class(*c))
     }
@@ -635,17 +675,20 @@ impl Laid {
         let mut top = MS::of(mt);
         let mut bottom = MS::of(mb);
         if self.is_block_container(c) {
-            let vmc = self.last[c].map(|(i, _)| i.vertical_margins_are_collapsible).unwrap_or(Line::FALSE);
+            let vmc = self.last_run[c].map(|i| i.vertical_margins_are_collapsible).unwrap_or(Line::FALSE);
             let scroll = |o: Overflow| matches!(o, Overflow::Hidden | Overflow::Scroll);
             let common = !scroll(s.overflow.x) && !scroll(s.overflow.y) && s.position == Position::Relative;
-            let pt = res_lp(s.padding.top, Some(pw));
-            let pb = res_lp(s.padding.bottom, Some(pw));
-            let bt = res_lp(s.border.top, Some(pw));
-            let bb = res_lp(s.border.bottom, Some(pw));
+            // the box's own padding / border as resolved in the pass that actually laid it out (a stale cached pass may
+            // have had no parent width: the lossy cache key is C01/C02's finding, not this property's)
+            let rpw = self.last_run[c].map(|i| i.parent_size.width).unwrap_or(Some(pw));
+            let pt = res_lp(s.padding.top, rpw);
+            let pb = res_lp(s.padding.bottom, rpw);
+            let bt = res_lp(s.border.top, rpw);
+            let bb = res_lp(s.border.bottom, rpw);
             // height "auto": the style height does not resolve (percentages have no basis in block flow)
             let h_raw = s.size.height.into_raw();
             let height_unset = !(h_raw.tag() == CompactLength::LENGTH_TAG) && !(s.aspect_ratio.is_some() && !s.size.width.is_auto() && width_resolves(s, pw));
-            let cw = self.t.nodes[c].unrounded.size.width;
+            let cw = self.last[c].map(|(_, o)| o.size.width).unwrap_or(self.t.nodes[c].unrounded.size.width);
             let kids = self.inflow(c);
             if vmc.start && common && pt == 0.0 && bt == 0.0 {
                 let mut acc = MS::ZERO;
@@ -679,12 +722,17 @@ impl Laid {
     /// The three clauses on block container `b`
     fn check_container(&self, b: usize, st: &mut Stats, out: &mut Vec<Finding>) {
         let nb = &self.t.nodes[b];
-        let (binp, _) = match self.last[b] {
+        let binp = match self.last_run[b] {
             Some(x) => x,
             None => return,
         };
+        let bout = match self.last[b] {
+            Some((_, o)) => o,
+            None => return,
+        };
         st.containers += 1;
-        let ow = nb.unrounded.size.width;
+        // the container's own outer width (its parent may have stored a different size, e.g. for an absolute box)
+        let ow = bout.size.width;
         let kids = self.inflow(b);
         for k in &kids {
             if self.in_known_class(*k) {
@@ -697,7 +745,16 @@ impl Laid {
         };
         let y = |c: usize| self.t.nodes[c].unrounded.location.y;
         let h = |c: usize| self.t.nodes[c].unrounded.size.height;
-        let known_between = |i: usize, j: usize| (i..=j).any(|k| self.subtree_has_known_class(kids[k]));
+        let overwritten = self.children_overwritten(b);
+        let known_between = |i: usize, j: usize| {
+            if (i..=j).any(|k| self.subtree_has_known_class(kids[k])) {
+                Some(CT_CLASS)
+            } else if overwritten {
+                Some(CLOBBER_CLASS)
+            } else {
+                None
+            }
+        };
         // clause 1: document order, no overlap (non-negative margins)
         if kids.iter().all(|c| self.subtree_margins_nonneg(*c)) {
             for i in 0..kids.len() {
@@ -711,6 +768,7 @@ impl Laid {
                     if !(y(c) + tol(y(c), bottom_a) >= bottom_a) {
                         out.push(Finding {
                             known: known_between(i, j),
+                            key: (1, b, a, c),
                             msg: format!("order/overlap: container #{b}: child #{c} at y={} starts above the bottom edge {} of its earlier sibling #{a}", y(c), bottom_a),
                         });
                     }
@@ -742,7 +800,8 @@ impl Laid {
             st.width_checks += 1;
             if !((l.size.width - expected).abs() <= tol(expected, inner_w)) {
                 out.push(Finding {
-                    known: false,
+                    known: if overwritten { Some(CLOBBER_CLASS) } else { None },
+                    key: (2, b, *c, *c),
                     msg: format!("fill width: container #{b} (content width {inner_w}): child #{c} with auto width and margins {}/{} is {} wide, expected {}", l.margin.left, l.margin.right, l.size.width, expected),
                 });
             }
@@ -767,9 +826,16 @@ impl Laid {
                     if through > 0 {
                         st.gaps_through += 1;
                     }
-                    if !((gap - expected).abs() <= tol(y(*c), y(a) + h(a)).max(tol(expected, 0.0))) {
+                    let tl = tol(y(*c), y(a) + h(a)).max(tol(expected, 0.0));
+                    if !((gap - expected).abs() <= tl) {
+                        // known class: the later sibling's own top set has a positive and a negative member and the distance is
+                        // what collapsing its already-resolved sum (instead of its members) with the earlier margins gives
+                        let before = ba.union(pending);
+                        let as_scalar = before.union(MS::of(t.resolve())).resolve();
+                        let mixed = t.mixed() && (gap - as_scalar).abs() <= tl;
                         out.push(Finding {
-                            known: known_between(i, j),
+                            known: if mixed { Some(MIXED_CLASS) } else { known_between(i, j) },
+                            key: (3, b, a, *c),
                             msg: format!("margin collapse: container #{b}: distance between #{a} (bottom edge {}) and #{c} (y={}) is {gap}, collapsed adjoining margins give {expected} ({through} collapsed-through boxes between)", y(a) + h(a), y(*c)),
                         });
                     }
@@ -796,12 +862,32 @@ fn width_resolves(s: &Style, _pw: f32) -> bool {
     !s.size.width.is_auto()
 }
 
-pub fn check_tree(spec: &NodeSpec, avail: Size<AvailableSpace>, st: &mut Stats) -> Vec<Finding> {
+fn check_tree_mode(spec: &NodeSpec, avail: Size<AvailableSpace>, st: &mut Stats, exact_key: bool) -> Vec<Finding> {
+    taffy::verif_hooks::set_exact_key(exact_key);
     let laid = lay_out(spec, avail);
+    taffy::verif_hooks::set_exact_key(false);
     let mut out = vec![];
     for n in 0..laid.t.nodes.len() {
         if laid.live[n] && laid.is_block_container(n) {
             laid.check_container(n, st, &mut out);
+        }
+    }
+    out
+}
+
+/// The clauses on every block container of the tree.  A failure outside the directly recognisable classes is laid out
+/// again with the cache matching on the complete LayoutInput (hook `set_exact_key`): if it is gone, it was produced by a
+/// cached result computed for different inputs (the lossy cache key recorded under C01/C02), class `lossy-cache-key`.
+pub fn check_tree(spec: &NodeSpec, avail: Size<AvailableSpace>, st: &mut Stats) -> Vec<Finding> {
+    let mut out = check_tree_mode(spec, avail, st, false);
+    if out.iter().any(|f| f.known.is_none()) {
+        let mut st2 = Stats::default();
+        let exact = check_tree_mode(spec, avail, &mut st2, true);
+        for f in out.iter_mut().filter(|f| f.known.is_none()) {
+            match exact.iter().find(|g| g.key == f.key) {
+                None => f.known = Some(LOSSY_CLASS),
+                Some(g) => f.known = g.known,
+            }
         }
     }
     out
@@ -868,11 +954,82 @@ fn witness_spec() -> (NodeSpec, Size<AvailableSpace>) {
 
 fn print_findings(idx: u64, fs: &[Finding]) {
     for f in fs.iter().take(4) {
-        if f.known {
-            println!("KNOWN {idx} ct-positive-height {}", f.msg);
-        } else {
-            println!("FAIL {idx} {}", f.msg);
+        match f.known {
+            Some(class) => println!("KNOWN {idx} {class} {}", f.msg),
+            None => println!("FAIL {idx} {}", f.msg),
         }
+    }
+}
+
+fn d_raw(c: CompactLength) -> String {
+    let t = c.tag();
+    if t == CompactLength::LENGTH_TAG {
+        format!("{}", c.value())
+    } else if t == CompactLength::PERCENT_TAG {
+        format!("{}%", c.value() * 100.0)
+    } else if t == CompactLength::AUTO_TAG {
+        "auto".into()
+    } else {
+        format!("tag{t}")
+    }
+}
+
+/// the style fields block layout reads, compactly
+pub fn describe(s: &Style, ctx: &Option<Ctx>) -> String {
+    let mut o = format!("{:?}", s.display).to_lowercase();
+    if s.position == Position::Absolute {
+        o += " absolute";
+    }
+    if s.item_is_table {
+        o += " table";
+    }
+    if s.box_sizing == BoxSizing::ContentBox {
+        o += " content-box";
+    }
+    o += &format!(" size=({},{})", d_raw(s.size.width.into_raw()), d_raw(s.size.height.into_raw()));
+    if !s.min_size.width.is_auto() || !s.min_size.height.is_auto() {
+        o += &format!(" min=({},{})", d_raw(s.min_size.width.into_raw()), d_raw(s.min_size.height.into_raw()));
+    }
+    if !s.max_size.width.is_auto() || !s.max_size.height.is_auto() {
+        o += &format!(" max=({},{})", d_raw(s.max_size.width.into_raw()), d_raw(s.max_size.height.into_raw()));
+    }
+    if let Some(r) = s.aspect_ratio {
+        o += &format!(" aspect={r}");
+    }
+    let r4 = |l: CompactLength, r: CompactLength, t: CompactLength, b: CompactLength| format!("(l {} r {} t {} b {})", d_raw(l), d_raw(r), d_raw(t), d_raw(b));
+    let m = s.margin;
+    if m != Rect::zero() {
+        o += &format!(" margin={}", r4(m.left.into_raw(), m.right.into_raw(), m.top.into_raw(), m.bottom.into_raw()));
+    }
+    let m = s.padding;
+    if m != Rect::zero() {
+        o += &format!(" padding={}", r4(m.left.into_raw(), m.right.into_raw(), m.top.into_raw(), m.bottom.into_raw()));
+    }
+    let m = s.border;
+    if m != Rect::zero() {
+        o += &format!(" border={}", r4(m.left.into_raw(), m.right.into_raw(), m.top.into_raw(), m.bottom.into_raw()));
+    }
+    let m = s.inset;
+    if m != Rect::auto() {
+        o += &format!(" inset={}", r4(m.left.into_raw(), m.right.into_raw(), m.top.into_raw(), m.bottom.into_raw()));
+    }
+    if s.overflow.x != Overflow::Visible || s.overflow.y != Overflow::Visible {
+        o += &format!(" overflow=({:?},{:?}) scrollbar={}", s.overflow.x, s.overflow.y, s.scrollbar_width);
+    }
+    if s.text_align != TextAlign::Auto {
+        o += &format!(" text-align={:?}", s.text_align);
+    }
+    if let Some(c) = ctx {
+        o += &format!(" measure={:?}", c);
+    }
+    o
+}
+
+pub fn describe_tree(n: &NodeSpec, depth: usize, counter: &mut usize, out: &mut String) {
+    out.push_str(&format!("{}#{} {}\n", "  ".repeat(depth), *counter, describe(&n.style, &n.ctx)));
+    *counter += 1;
+    for c in &n.children {
+        describe_tree(c, depth + 1, counter, out);
     }
 }
 
@@ -915,13 +1072,15 @@ pub fn main(args: &[String]) {
             let (c, r) = kcase_lines(&spec, avail);
             println!("{c}\n{r}");
             if args.len() > 3 {
-                println!("{:#?}\navail={:?}", spec, avail);
+                let mut txt = String::new();
+                describe_tree(&spec, 0, &mut 0, &mut txt);
+                println!("{txt}avail={:?}", avail);
             }
         }
         "case-log" => {
             let (spec, avail) = kcase(num(1), num(2));
             let laid = lay_out(&spec, avail);
-            for (n, i, o) in &laid.t.log {
+            for (_, n, i, o) in &laid.t.log {
                 println!("#{n} {:?} known={:?} parent={:?} avail={:?} -> size={:?} content={:?} ct={}", i.run_mode, i.known_dimensions, i.parent_size, i.available_space, o.size, o.content_size, o.margins_can_collapse_through);
             }
             dump(&laid);
@@ -946,6 +1105,8 @@ pub fn main(args: &[String]) {
             let mut trees = 0u64;
             let mut nfail = 0u64;
             let mut nknown = 0u64;
+            let mut shown_fail = 0u64;
+            let mut per_class: std::collections::BTreeMap<&'static str, u64> = Default::default();
             for idx in 0..n {
                 let (spec, avail) = ocase(seed, idx);
                 let r = std::panic::catch_unwind(|| {
@@ -962,27 +1123,59 @@ pub fn main(args: &[String]) {
                         st.gap_checks += s.gap_checks;
                         st.gaps_through += s.gaps_through;
                         st.known_class_boxes += s.known_class_boxes;
-                        let k = fs.iter().filter(|f| f.known).count() as u64;
+                        let k = fs.iter().filter(|f| f.known.is_some()).count() as u64;
                         nknown += k;
                         nfail += fs.len() as u64 - k;
-                        if (nfail < 12 && fs.iter().any(|f| !f.known)) || (nknown <= 6 && k > 0) {
-                            print_findings(idx, &fs);
+                        // print every unclassified failure (capped) and the first two of each known class
+                        let mut show: Vec<&Finding> = vec![];
+                        for f in &fs {
+                            match f.known {
+                                None => {
+                                    if shown_fail < 12 {
+                                        shown_fail += 1;
+                                        show.push(f);
+                                    }
+                                }
+                                Some(c) => {
+                                    let e = per_class.entry(c).or_insert(0u64);
+                                    *e += 1;
+                                    if *e <= 2 {
+                                        show.push(f);
+                                    }
+                                }
+                            }
+                        }
+                        for f in show {
+                            match f.known {
+                                Some(class) => println!("KNOWN {idx} {class} {}", f.msg),
+                                None => println!("FAIL {idx} {}", f.msg),
+                            }
                         }
                     }
                     Err(_) => {} // totality is C03's business
                 }
             }
             println!(
-                "ORACLE trees={trees} containers={} order_pairs={} width_checks={} gap_checks={} gaps_through={} known_class_boxes={} fails={nfail} known={nknown}",
-                st.containers, st.order_pairs, st.width_checks, st.gap_checks, st.gaps_through, st.known_class_boxes
+                "ORACLE trees={trees} containers={} order_pairs={} width_checks={} gap_checks={} gaps_through={} known_class_boxes={} fails={nfail} known={nknown} classes={:?}",
+                st.containers, st.order_pairs, st.width_checks, st.gap_checks, st.gaps_through, st.known_class_boxes, per_class
             );
         }
         "oracle-one" => {
             let idx = num(2);
             let (spec, avail) = ocase(num(1), idx);
-            println!("{:#?}\navail={:?}", spec, avail);
+            let mut txt = String::new();
+            describe_tree(&spec, 0, &mut 0, &mut txt);
+            println!("{txt}avail={:?}", avail);
             let laid = lay_out(&spec, avail);
             dump(&laid);
+            if args.len() > 3 {
+                for (q, n, i, o) in &laid.t.log {
+                    println!("{q} call #{n} {:?} known={:?} parent={:?} avail={:?} -> size={:?} ct={}", i.run_mode, i.known_dimensions, i.parent_size, i.available_space, o.size, o.margins_can_collapse_through);
+                }
+                for (q, n, i) in &laid.t.runs {
+                    println!("{q} run #{n} {:?} known={:?} parent={:?} avail={:?}", i.run_mode, i.known_dimensions, i.parent_size, i.available_space);
+                }
+            }
             let mut st = Stats::default();
             print_findings(idx, &check_tree(&spec, avail, &mut st));
             println!("{:?}", st);
